@@ -18,7 +18,14 @@ pub(crate) fn impl_sqrt(n: &BigUint, scale: i64, ctx: &Context) -> BigDecimal {
     // be the digits of the decimal root
     let shift = wanted_digits.saturating_sub(num_digits);
     let exponent = shift + u64::from((BigInt::from(shift) + scale).is_odd());
-    let sqrt_digits = (n * ten_to_the_uint(exponent)).sqrt();
+    let shifted_digits = n * ten_to_the_uint(exponent);
+    let mut sqrt_digits = shifted_digits.sqrt();
+
+    // the integer root truncates: keep a non-zero remainder visible to the final
+    // rounding as an extra (sticky) digit, so ties and directed modes see it
+    if &sqrt_digits * &sqrt_digits != shifted_digits {
+        sqrt_digits = sqrt_digits * 10u8 + 1u8;
+    }
 
     // Calculate the scale of the result
     let result_scale_digits = 2 * (2 * prec - scale_diff) - 1;
